@@ -1,0 +1,126 @@
+//! Verification hooks for the control-byte primitives (cargo feature
+//! `verif-hooks`): thin wrappers around `Group` and `BitMask`, add-only.
+#![allow(missing_docs, clippy::pedantic, clippy::all)]
+
+use super::{BitMask, Group, Tag};
+
+pub(crate) fn tag_byte(t: Tag) -> u8 {
+    t.0
+}
+
+// ---------------------------------------------------------------------------
+// Group primitives (C18)
+// ---------------------------------------------------------------------------
+
+/// Everything observable about a `BitMask`.
+#[derive(Clone, Copy, Debug, PartialEq, Eq)]
+pub struct MaskInfo {
+    /// Bit `i` set iff iteration yielded position `i`.
+    pub bits: u32,
+    /// Iteration yielded strictly ascending positions, all `< WIDTH`.
+    pub iter_ascending: bool,
+    pub iter_count: u32,
+    pub any_bit_set: bool,
+    pub lowest_set_bit: Option<usize>,
+    pub leading_zeros: usize,
+    pub trailing_zeros: usize,
+}
+
+fn mask_info(m: BitMask) -> MaskInfo {
+    let mut bits = 0u32;
+    let mut asc = true;
+    let mut last: Option<usize> = None;
+    let mut n = 0u32;
+    for i in m {
+        if i >= Group::WIDTH {
+            asc = false;
+        } else {
+            bits |= 1 << i;
+        }
+        if let Some(l) = last {
+            if i <= l {
+                asc = false;
+            }
+        }
+        last = Some(i);
+        n += 1;
+        if n > 64 {
+            asc = false;
+            break;
+        }
+    }
+    MaskInfo {
+        bits,
+        iter_ascending: asc,
+        iter_count: n,
+        any_bit_set: m.any_bit_set(),
+        lowest_set_bit: m.lowest_set_bit(),
+        leading_zeros: m.leading_zeros(),
+        trailing_zeros: m.trailing_zeros(),
+    }
+}
+
+#[repr(C, align(64))]
+struct AlignedBuf([u8; 64]);
+
+fn load(bytes: &[u8]) -> Group {
+    assert!(bytes.len() >= Group::WIDTH);
+    // SAFETY: at least WIDTH readable bytes; unaligned load.
+    unsafe { Group::load(bytes.as_ptr().cast()) }
+}
+
+pub fn group_match_tag(bytes: &[u8], tag: u8) -> MaskInfo {
+    mask_info(load(bytes).match_tag(Tag(tag)))
+}
+
+pub fn group_match_empty(bytes: &[u8]) -> MaskInfo {
+    mask_info(load(bytes).match_empty())
+}
+
+pub fn group_match_empty_or_deleted(bytes: &[u8]) -> MaskInfo {
+    mask_info(load(bytes).match_empty_or_deleted())
+}
+
+pub fn group_match_full(bytes: &[u8]) -> MaskInfo {
+    mask_info(load(bytes).match_full())
+}
+
+/// `convert_special_to_empty_and_full_to_deleted`, going through
+/// `load_aligned` and `store_aligned`. Only the first `WIDTH` bytes of the
+/// result are meaningful.
+pub fn group_convert(bytes: &[u8]) -> [u8; 16] {
+    assert!(bytes.len() >= Group::WIDTH);
+    let mut src = AlignedBuf([0; 64]);
+    let mut dst = AlignedBuf([0; 64]);
+    src.0[..Group::WIDTH].copy_from_slice(&bytes[..Group::WIDTH]);
+    // SAFETY: both buffers are 64-byte aligned and at least WIDTH long.
+    unsafe {
+        let g = Group::load_aligned(src.0.as_ptr().cast());
+        g.convert_special_to_empty_and_full_to_deleted()
+            .store_aligned(dst.0.as_mut_ptr().cast());
+    }
+    let mut out = [0u8; 16];
+    out[..Group::WIDTH].copy_from_slice(&dst.0[..Group::WIDTH]);
+    out
+}
+
+/// Unaligned `load` at byte offset `off` of a buffer followed by an aligned
+/// store: returns the `WIDTH` bytes that were loaded.
+pub fn group_load_store_roundtrip(bytes: &[u8], off: usize) -> [u8; 16] {
+    assert!(bytes.len() >= off + Group::WIDTH);
+    let mut dst = AlignedBuf([0; 64]);
+    // SAFETY: in-bounds unaligned load, aligned store into a 64-byte buffer.
+    unsafe {
+        let g = Group::load(bytes.as_ptr().add(off).cast());
+        g.store_aligned(dst.0.as_mut_ptr().cast());
+    }
+    let mut out = [0u8; 16];
+    out[..Group::WIDTH].copy_from_slice(&dst.0[..Group::WIDTH]);
+    out
+}
+
+pub fn static_empty_group() -> &'static [u8] {
+    let t = Group::static_empty();
+    // SAFETY: Tag is repr(transparent) over u8.
+    unsafe { core::slice::from_raw_parts(t.as_ptr().cast::<u8>(), t.len()) }
+}
